@@ -252,6 +252,10 @@ def gen_case(rng, system, quick):
   n_clients = int(rng.randint(4, 7))
   sizes = [int(SIZES[rng.randint(len(SIZES))]) for _ in range(n_clients)]
   is_agg = system.startswith('agg_')
+  if is_agg:
+    # quantizing a vector of <= 2 entries is deterministic (both entries are grid end points): use parameter vectors
+    # long enough for the aggregator's randomness to be observable
+    dim = int(rng.randint(5, 10))
   if not is_agg and rng.rand() < 0.25:
     sizes[rng.randint(n_clients)] = 0
   ne = [1, 2][rng.randint(2)]
